@@ -482,6 +482,14 @@ pub fn eval_unit_name(
             BinOpType::Frac => {
                 let (left_unit, left) = eval_unit_name(ctx, &binop.left)?;
                 let (right_unit, right) = eval_unit_name(ctx, &binop.right)?;
+                // The constant factor of an inline definition counts as
+                // one here, so the divisor can be zero although the
+                // target's value is not.
+                if right == Numeric::zero() || right == Numeric::Float(0.0) {
+                    return Err(QueryError::generic(
+                        "Division by zero in the right hand side of a conversion".to_string(),
+                    ));
+                }
 
                 let right_unit = right_unit
                     .into_iter()
@@ -512,6 +520,13 @@ pub fn eval_unit_name(
                 }
                 let right = right.value.to_f64();
                 let (left_unit, left_value) = eval_unit_name(ctx, &binop.left)?;
+                if right < 0.0
+                    && (left_value == Numeric::zero() || left_value == Numeric::Float(0.0))
+                {
+                    return Err(QueryError::generic(
+                        "Division by zero in the right hand side of a conversion".to_string(),
+                    ));
+                }
                 Ok((
                     left_unit
                         .into_iter()
